@@ -572,6 +572,88 @@ def rule_r6(ck, prog, rule='C20.R6'):
     return cnt
 
 
+def rule_r7(ck, prog, rule='C20.R7'):
+    """span accessors as a table (constant folding with extent_ / Extent and data_ pinned): size() is the extent, empty() <=> the
+    extent is zero, begin() is data(), end() is data() + size(), operator[](i) is data()[i]; the pointer-pair constructor takes
+    its length from last - first. For the dynamic and the fixed-extent specialisation instantiated in the driver unit."""
+    from ..inteval import ieval
+    cnt = 0
+    names = ('size', 'empty', 'begin', 'end', 'data', 'operator[]')
+    by_cls = {}
+    for f in prog.funcs.values():
+        sq = strip_targs(f.qn)
+        if sq.startswith('opentelemetry::nostd::span::') and f.name in names and f.blocks and not f.d.get('lambda'):
+            by_cls.setdefault(f.qn.rsplit('::', 1)[0], []).append(f)
+    for cls in sorted(by_cls):
+        m = re.search(r',\s*(\d+)>$', cls)
+        fixed = int(m.group(1)) if m and int(m.group(1)) < (1 << 63) else None
+        extents = [fixed] if fixed is not None else [0, 3]
+        bad = None
+        unknown = None
+        rows = 0
+        for ext in extents:
+            env = {'this.extent_': ext, 'this.data_': ('ptr', 'elems', 0), 'param:index': 1 if ext else 0, 'this.data()': ('ptr', 'elems', 0), 'this.size()': ext}
+            want = {'size': ext, 'empty': ext == 0, 'begin': ('ptr', 'elems', 0), 'end': ('ptr', 'elems', ext), 'data': ('ptr', 'elems', 0),
+                    'operator[]': ('elem', 'elems', env['param:index'])}
+            for f in sorted(by_cls[cls], key=lambda x: x.key):
+                if f.name == 'operator[]' and ext == 0:
+                    continue
+                g = Graph(prog, f, inline=None, sync_lambdas=False)
+                rd = reaching_defs(g)
+                rets = g.returns()
+                vals = {repr(ieval(g, rd, f, r.n['e'], r.ctx, env)) for r in rets}
+                rows += 1
+                if len(vals) != 1 or 'None' in vals:
+                    unknown = unknown or '%s does not fold' % f.name
+                    continue
+                v = eval(vals.pop())
+                w = want[f.name]
+                if isinstance(w, bool):
+                    v = bool(v)
+                if v != w and bad is None:
+                    bad = (f, 'with %d element(s) %s() yields %s, expected %s' % (ext, f.name, v, w))
+        cnt += 1
+        anchor = bad[0] if bad else sorted(by_cls[cls], key=lambda x: x.key)[0]
+        site = 'span-accessors:%s' % ('extent %d' % fixed if fixed is not None else 'dynamic')
+        if bad:
+            ck.violation(rule, anchor, site, None, 'nostd::span: ' + bad[1] + ' (std::span: size()==extent, empty()==(size()==0), end()==data()+size(), [i]==data()[i])')
+        elif unknown:
+            ck.inconclusive(rule, anchor, site, None, unknown)
+        else:
+            ck.holds(rule, anchor, site, None, '%d accessor rows agree with std::span' % rows)
+    # pointer-pair constructor of the dynamic span: extent_ = last - first, data_ = first
+    for f in sorted(prog.funcs.values(), key=lambda x: x.key):
+        if not (strip_targs(f.qn) == 'opentelemetry::nostd::span::span' and f.kind == 'ctor' and len(f.params) == 2 and f.blocks and
+                all(p['t'].rstrip().endswith('*') for p in f.params) and '18446744073709551615' in f.qn):
+            continue
+        g = Graph(prog, f, inline=None, sync_lambdas=False)
+        rd = reaching_defs(g)
+        env = {'param:' + f.params[0]['name']: ('ptr', 'elems', 2), 'param:' + f.params[1]['name']: ('ptr', 'elems', 7)}
+        got = {}
+        for p in g.points:
+            if p.el is not None and p.el.get('init') in ('extent_', 'data_') and 'e' in p.el:
+                e = p.el['e']
+                n = f.nodes[e]
+                v = ieval(g, rd, f, e, p.ctx, env)
+                if v is None:
+                    # std::distance(first, last)
+                    for i in list(f.subtree(e)) + [e]:
+                        m_ = f.nodes[i]
+                        if m_['k'] == 'call' and strip_targs(m_.get('c', '')).endswith('std::distance') and len(m_.get('args', [])) == 2:
+                            a, b = ieval(g, rd, f, m_['args'][0], p.ctx, env), ieval(g, rd, f, m_['args'][1], p.ctx, env)
+                            if isinstance(a, tuple) and isinstance(b, tuple):
+                                v = b[2] - a[2]
+                got[p.el['init']] = v
+        cnt += 1
+        if got.get('extent_') is None or got.get('data_') is None:
+            ck.inconclusive(rule, f, 'span-from-pointer-pair', None, 'member initialisers do not fold')
+        else:
+            ok = got['extent_'] == 5 and got['data_'] == ('ptr', 'elems', 2)
+            ck.verdict(ok, rule, f, 'span-from-pointer-pair', None, 'span(first, last): data_ = first, extent_ = last - first' if ok else
+                       'span(first, last) with last = first + 5 gets extent %s and data %s' % (got['extent_'], got['data_']))
+    return cnt
+
+
 def run(ck, prog):
     ck.doc('C20.R1', 'assignment typestate: object-identity guard, source taken before release; unique_ptr: ptr_ written only through reset/release/swap, reset deletes first, every assignment overload', 11)
     ck.doc('C20.R2', 'type-level witnesses (static_assert unit compiled with the build flags)', 22)
@@ -579,6 +661,7 @@ def run(ck, prog):
     ck.doc('C20.R4', 'substr / find guards and offsets', 4)
     ck.doc('C20.R5', 'std::hash<nostd::string_view> depends on the characters only', 1)
     ck.doc('C20.R6', 'string_view siblings agree: relational members are the sign of compare, != / mixed == delegate to == on their own operands, compare overloads forward their sub-range pairs, find reports the offset from the view start', 16)
+    ck.doc('C20.R7', 'span accessors and the pointer-pair constructor agree with std::span (constant-folded table)', 3)
     with ck.canary('C20.R1'):
         rule_r1(ck, prog, cls='canary::c20::bad_ptr')
     rule_r1(ck, prog)
@@ -588,4 +671,5 @@ def run(ck, prog):
     rule_r4(ck, prog)
     rule_r5(ck, prog)
     rule_r6(ck, prog)
+    rule_r7(ck, prog)
     return {}
